@@ -1,4 +1,5 @@
 import Arimaa.Lemmas.Abs
+import Arimaa.Lemmas.GenAgreeFrozen
 
 /-!
 Ownership masks, friends, stronger enemies and `curr_player_non_frozen_pieces` pointwise, in terms
